@@ -31,7 +31,7 @@ PROBES = ["pel_over_2KiB", "perm_not_sorted", "reverse", "ext_filter", "hex", "s
 
 def gen_plan(rng, tier, run):
     n = rng.choice([0, 1, 2, 3, 4, 5, 6, 8, 12])
-    ext = rng.choice([None, None, [".pel"], [".pel", ".txt", ""], [".pel", ".PEL", ".pel.bak"]])
+    ext = rng.choice([None, None, [".pel"], [".pel", ".txt", ""], [".pel", ".PEL", ".pel.bak"], [".json", ".pel", ""]])
     files = common.gen_store(rng, n, ext=ext, max_sections=4, ud_targets=[("O", 0x2000)] if rng.random() < 0.4 else None,
                              links=rng.choice([0, 0, 0, 0.3]))
     # some PELs well above 2 KiB: no primary SRC and large sections, or an SRC with the maximum of 10 callouts
@@ -57,7 +57,7 @@ def gen_plan(rng, tier, run):
             "fresh": rng.random() < 0.5,
             "opts": common.gen_selection(rng),
             "rev": rng.random() < 0.4,
-            "ext": rng.choice([".pel", ".txt", ".PEL", ".bak"]) if ext and rng.random() < 0.7 else None,
+            "ext": rng.choice([".pel", ".txt", ".PEL", ".bak", ".json"]) if ext and rng.random() < 0.7 else None,
             "hex": rng.random() < 0.25,
             "stdout_encoding": rng.choice(["utf-8", "utf-8", "utf-8", "ascii", "latin-1"]),
             # environment: "on the BMC" (built-in default directory, no -p; -A = its archive/) or a workstation (-p)
